@@ -90,7 +90,8 @@ def real_parse(src: str, mode="exec", wall=5.0, **kw):
 
 
 def dump(tree):
-    return ast.dump(tree, include_attributes=True)
+    from .oracles import dump as _d
+    return _d(tree)
 
 
 def observable(kind, payload, model=None):
